@@ -13,6 +13,7 @@ import (
 	wrapping "github.com/hashicorp/go-kms-wrapping/v2"
 	"github.com/hashicorp/nodeenrollment"
 	"github.com/hashicorp/nodeenrollment/registration"
+	"github.com/hashicorp/nodeenrollment/rotation"
 	"github.com/hashicorp/nodeenrollment/types"
 	vclock "github.com/hashicorp/nodeenrollment/zz_verif/vclock"
 	"google.golang.org/protobuf/proto"
@@ -73,10 +74,11 @@ type state struct {
 	issued map[string]bool // tokens handed to the operator
 	epoch  int             // number of age steps (virtual now = T0 + epoch*(tokenLife+1ns))
 	hasR   bool
+	reinit bool // the operator has replaced the server's roots since the start
 }
 
 func (s *state) clone() *state {
-	c := &state{st: s.st.Clone(), issued: map[string]bool{}, epoch: s.epoch, hasR: s.hasR}
+	c := &state{st: s.st.Clone(), issued: map[string]bool{}, epoch: s.epoch, hasR: s.hasR, reinit: s.reinit}
 	for k, v := range s.issued {
 		c.issued[k] = v
 	}
@@ -138,6 +140,9 @@ func (w *world) keyOf(s *state) string {
 	}
 	// every record and token id in the store takes part, so unexpected records are never merged away
 	parts = append(parts, "ids="+strings.Join(s.st.Ids("nodeinfo"), ","))
+	if s.reinit {
+		parts = append(parts, "roots-replaced")
+	}
 	return strings.Join(parts, " ")
 }
 
@@ -383,6 +388,16 @@ func (w *world) applyOp(s *state, label string) (*state, string, string) {
 		if err := ns.st.Remove(harness.Ctx, &types.NodeInformation{Id: id}); err != nil {
 			panic(err)
 		}
+	case "reinit-roots":
+		// the operator replaces both roots: records authorized before keep
+		// certificates under roots the server no longer has
+		if s.reinit {
+			return nil, "", ""
+		}
+		if _, err := rotation.RotateRootCertificates(harness.Ctx, ns.st, nodeenrollment.WithReinitializeRoots(true)); err != nil {
+			panic(err)
+		}
+		ns.reinit = true
 	case "age":
 		// only meaningful while something can expire
 		v := w.abstract(s)
@@ -428,7 +443,7 @@ func (w *world) explore(c *engine.Ctx, r *engine.Report, hasR bool) {
 		opLabels = append(opLabels, "rm:"+k)
 	}
 	opLabels = append(opLabels, "rm:KR") // the operator removes the re-wrapping node
-	opLabels = append(opLabels, "age")
+	opLabels = append(opLabels, "age", "reinit-roots")
 	var fetches []fetch
 	for _, k := range m.fetchKeys {
 		for _, e := range m.encs {
@@ -556,7 +571,7 @@ func init() {
 	engine.Register(&engine.CheckDef{
 		ID:    "C01",
 		Level: "model_checking",
-		Rule: "BFS over operator actions {authorize(K,E,N), create token, remove node (including the re-wrapping node), age past the token lifetime} and every well-signed fetch request from {K1,K2,K3}x{E1,E2}x{N1,N2,T1,T2,forged token,garbage}x{11 wrapped / re-wrapped / self-supplied-clear-info variants}x{registration wrapper configured or not} (quick: reduced menus, depth 3; thorough: full menus, depth 4 - the full-menu fixpoint has > 70000 states x 576 fetch shapes and does not finish in the thorough budget), from two initial states (re-wrapping node R registered or not); state key = per key (nonce id, encryption key id) of its record, per token status, all record ids; " +
+		Rule: "BFS over operator actions {authorize(K,E,N), create token, remove node (including the re-wrapping node), age past the token lifetime, replace the server's roots} and every well-signed fetch request from {K1,K2,K3}x{E1,E2}x{N1,N2,T1,T2,forged token,garbage}x{11 wrapped / re-wrapped / self-supplied-clear-info variants}x{registration wrapper configured or not} (quick: reduced menus, depth 3; thorough: full menus, depth 4 - the full-menu fixpoint has > 70000 states x 576 fetch shapes and does not finish in the thorough budget), from two initial states (re-wrapping node R registered or not); state key = per key (nonce id, encryption key id) of its record, per token status, all record ids; " +
 			"states/transitions are counted by the search; distinct_nontrivial = distinct (oracle branch, request class) pairs observed",
 		Assumptions: []string{"a 'forged' request is one assembled from other pool members; signature forgery is outside the model", "the canonical key drops the server encryption key, certificate bundles and state of a record: no transition or oracle of this check reads them"},
 		Shards:      func(c *engine.Ctx) int { return 2 },
